@@ -226,6 +226,15 @@ func TestVerif_C11_host(t *testing.T) {
 		"example.com.", "evil.com.", "www.example.com.", "www.example.com.:443", "example.com:", "EXAMPLE.com", "a.b.c", "localhost", "[::ffff:1.2.3.4]"} {
 		c11HostCase(s, a, true)
 	}
+	// spellings a configured entry (AllowedHost/AllowedDomain argument) or an odd Location can have and
+	// that are NOT authorities of the grammar: userinfo, empty host, non-numeric or signed port,
+	// IPv4-mapped IPv6 next to the IPv4 text, zone ids: the model must answer what the code answers
+	for _, a := range []string{"", ":", ":80", ":abc", "host:abc", "host:80x", "host:-1", "host:+80", "user@host", "user:pw@host:80", "allowed.example@evil.example",
+		"[::1]:x", "[::1]x", "[::1", "::1]", "[]", "[]:80", "[%eth0]", "[fe80::1%25eth0]", "[fe80::1%]", "::ffff:1.2.3.4", "1.2.3.4", "[::ffff:1.2.3.4]:80",
+		"[::FFFF:1.2.3.4]", "[0:0:0:0:0:ffff:102:304]", "1.2.3.4.", "1.2.3", "1.2.3.4.5", "0x7f.1", "0177.0.0.1", "host..", ".", "..", ".host", "a..b.c"} {
+		s.Count("fixed-odd-spelling")
+		c11HostCase(s, a, false)
+	}
 	n := verifh.N(20000, 400000)
 	for i := 0; i < n; i++ {
 		if r.Intn(3) != 0 {
@@ -237,7 +246,7 @@ func TestVerif_C11_host(t *testing.T) {
 			c11HostCase(s, c11RawString(s), false)
 		}
 	}
-	s.FinishRequire("oracle", "raw", "name", "name+port", "name+emptyport", "name-dot", "name-dot+port", "ip4", "ip4+port", "ip6", "ip6+port", "ip6+emptyport", "ip6-zone", "ip6-zone+port", "legacy-affected-input")
+	s.FinishRequire("oracle", "raw", "name", "name+port", "name+emptyport", "name-dot", "name-dot+port", "ip4", "ip4+port", "ip6", "ip6+port", "ip6+emptyport", "ip6-zone", "ip6-zone+port", "legacy-affected-input", "fixed-odd-spelling")
 }
 
 // TestVerif_C11_spec: the Lean SPEC (structured authority → render / specHost / specDomain /
